@@ -131,6 +131,7 @@ const HORIZON: usize = 20_000;
 pub fn execute(case: &Case, seed: u64, read: Policy) -> Outcome {
     fastrand::seed(seed);
     set_app_pauses(true);
+    set_retry_after_error(true);
     let n = case.plans.len();
     let ids: Vec<u64> = (0..n as u64).map(|i| i * 4).collect();
     let (me, peer) = match case.me {
@@ -152,15 +153,16 @@ pub fn execute(case: &Case, seed: u64, read: Policy) -> Outcome {
     match case.me {
         Endpoint::Server => {
             let mut b = h3::server::builder();
-            b.send_grease(false).max_field_section_size(LIMIT);
+            b.send_grease(case.goaway).max_field_section_size(LIMIT);
             ex.spawn("main", server_main(net.clone(), b, ex.spawner(), drv.clone(), handlers.clone(), true, 0));
         }
         Endpoint::Client => {
             let (net2, drv2, sp, hs, cs) = (net.clone(), drv.clone(), ex.spawner(), handlers.clone(), client_sends.clone());
             let plans = case.plans.clone();
+            let grease = case.goaway;
             ex.spawn("main", async move {
                 let mut b = h3::client::builder();
-                b.send_grease(false).max_field_section_size(LIMIT);
+                b.send_grease(grease).max_field_section_size(LIMIT);
                 let (mut conn, sr): (CliConn, CliSend) = match b.build(SimConn::new(&net2, CLIENT)).await {
                     Ok(x) => x,
                     Err(e) => {
@@ -203,6 +205,14 @@ pub fn execute(case: &Case, seed: u64, read: Policy) -> Outcome {
                                     s.finish().await
                                 }
                                 .await;
+                                if r.is_err() {
+                                    // an application that tidies up: finish() after a send call has failed
+                                    let a = match s.finish().await {
+                                        Ok(()) => "finish:ok".to_string(),
+                                        Err(e) => stream_class(&e),
+                                    };
+                                    out.borrow_mut().after_error.push(a);
+                                }
                                 cs2.borrow_mut().push((
                                     id,
                                     match r {
@@ -442,7 +452,7 @@ pub fn judge(case: &Case, o: &Outcome) -> Vec<(String, String)> {
         };
         let results = [&m.head, &m.body_end, &m.trailers, &m.sent];
         let csend = o.client_sends.iter().find(|(s, _)| *s == id).map(|(_, r)| r.clone()).unwrap_or_default();
-        let any_conn_err = results.iter().any(|r| is_conn_err(r)) || is_conn_err(&csend);
+        let any_conn_err = results.iter().any(|r| is_conn_err(r)) || is_conn_err(&csend) || m.after_error.iter().any(|r| is_conn_err(r));
         if any_conn_err {
             out.push((
                 format!("C07:{role}:connection-error-on-request:{pn}"),
@@ -572,7 +582,7 @@ pub fn run(args: &Args) -> i32 {
     let mut rep = Report::new("C07", args.tier, args.seed, "model_checking");
     rep.exhaustive = true;
     rep.rule = format!(
-        "{n} concurrent requests on one connection; each request is healthy or suffers one fault of {{RESET(0x10c) after 0 / 1 / header-boundary / mid-DATA bytes, RESET(0) mid-frame, STOP_SENDING(0x10c / H3_NO_ERROR), a STOP_SENDING (both codes) that is certainly known before the endpoint's first send call on that request, uppercase field name in the head or in the trailers, an empty field name, missing :method/:status, LF in a value, section over the limit, FIN before HEADERS (server role)}}; quick tier: every assignment over the core faults {{healthy, RESET after 1 byte, RESET mid-DATA, STOP_SENDING, uppercase name, oversize, FIN before HEADERS}} and, for each further fault, every assignment over {{healthy, that fault, RESET mid-DATA}} containing it; thorough tier: for each further fault every assignment over the core faults and that fault containing it; healthy heads padded to exactly the configured limit (on the second stream Huffman-coded with 26-bit symbols, so that its encoded form is more than twice the limit while its size by the RFC rule is the limit); every assignment with exactly one faulty request (thorough: at least one healthy and one faulty) also while a graceful shutdown is under way (the peer's GOAWAY, with an identifier that lets all of them continue, delivered after the requests were started and before the first fault); every assignment (including all healthy, and all faulty when homogeneous in the first two), for a real server and a real client against a scripted peer that plays the streams round-robin in three writes each. Every execution with <= {bound} deviations (scheduling among handler/request tasks, driver and script; an application pause between any two calls of the request API; chunk cuts and delayed delivery on every request stream), plus one-byte-per-read, plus (server role) the sequential server loop that handles each request inside the accept loop, whole and one byte per read. Oracle: healthy requests deliver exactly their own position-coded bytes and complete, their responses are complete on the wire; no close(); drivers report no error; each faulty request reports the stream-level error the property names and never a connection error. states = distinct (transport cursors, per-request progress) fingerprints; non-trivial = executions with a deviation."
+        "{n} concurrent requests on one connection; each request is healthy or suffers one fault of {{RESET(0x10c) after 0 / 1 / header-boundary / mid-DATA bytes, RESET(0) mid-frame, STOP_SENDING(0x10c / H3_NO_ERROR), a STOP_SENDING (both codes) that is certainly known before the endpoint's first send call on that request, uppercase field name in the head or in the trailers, an empty field name, missing :method/:status, LF in a value, section over the limit, FIN before HEADERS (server role)}}; quick tier: every assignment over the core faults {{healthy, RESET after 1 byte, RESET mid-DATA, STOP_SENDING, uppercase name, oversize, FIN before HEADERS}} and, for each further fault, every assignment over {{healthy, that fault, RESET mid-DATA}} containing it; thorough tier: for each further fault every assignment over the core faults and that fault containing it; healthy heads padded to exactly the configured limit (on the second stream Huffman-coded with 26-bit symbols, so that its encoded form is more than twice the limit while its size by the RFC rule is the limit); every assignment with exactly one faulty request (thorough: at least one healthy and one faulty) also while a graceful shutdown is under way (the peer's GOAWAY, with an identifier that lets all of them continue, delivered after the requests were started and before the first fault); every assignment (including all healthy, and all faulty when homogeneous in the first two), for a real server and a real client against a scripted peer that plays the streams round-robin in three writes each. Every execution with <= {bound} deviations (scheduling among handler/request tasks, driver and script; an application pause between any two calls of the request API; chunk cuts and delayed delivery on every request stream), plus one-byte-per-read, plus (server role) the sequential server loop that handles each request inside the accept loop, whole and one byte per read. After the first error of recv_data the receive pattern calls recv_data twice more; after a failed send call finish() is still called. The cases with a graceful shutdown under way run with grease enabled (the first request's finish() writes the grease frame). Oracle: healthy requests deliver exactly their own position-coded bytes and complete, their responses are complete on the wire; no close(); drivers report no error; each faulty request reports the stream-level error the property names and never a connection error. states = distinct (transport cursors, per-request progress) fingerprints; non-trivial = executions with a deviation."
     );
     rep.assumptions = vec!["a STOP_SENDING that arrives after the sending half completed is not reported (ok accepted)".into(), "client role: a response stream FIN-ed before HEADERS is not in the fault set (DESIGN.md 7)".into()];
     rep.bound_note = format!("{n} requests, deviation bound {bound}");
